@@ -580,6 +580,42 @@ pub fn search_stream(args: &[String]) {
             }
             println!("MINED tried={tried} hits={hits}");
         }
+        "retro" => {
+            // analysis stepping BACKWARDS: a position in which the side to move has a single legal move, after which the opponent
+            // mates at once; the position after the forced move is searched first, then — cache kept — the position itself
+            // (the cached verdict on the only line is the extreme score: window edges, empty move lists and fallbacks meet here)
+            let mut made = 0usize;
+            let mut tries = 0u64;
+            while made < count && tries < 3_000_000 {
+                tries += 1;
+                let b0 = match rng.below(3) {
+                    0 => random_sparse(&mut rng),
+                    1 => random_profile(&mut rng, 3),
+                    _ => random_profile(&mut rng, 1),
+                };
+                let Some(mut b) = b0 else { continue };
+                let legal = b.get_legal_moves();
+                if legal.len() != 1 {
+                    continue;
+                }
+                b.make_move(legal[0]);
+                let mates = !mates_in_one(&mut b).is_empty();
+                b.unmake_move();
+                if !mates {
+                    continue;
+                }
+                made += 1;
+                if !mine(&mut idx) {
+                    continue;
+                }
+                let fen = render_fen(&b);
+                let d = 2 + (made % 2) as u8;
+                run_case(&Case { fen: fen.clone(), moves: vec![legal[0].to_notation()], depth: d, nodes: None, stop: 0, cache: "fresh", tag: String::new(), tc: NO_TC, vdiv: 0 });
+                for dd in [d, d + 1, 1] {
+                    run_case(&Case { fen: fen.clone(), moves: vec![], depth: dd, nodes: None, stop: 0, cache: "keep", tag: String::new(), tc: NO_TC, vdiv: 0 });
+                }
+            }
+        }
         "game" => {
             // a game as a GUI plays it: search, play the answer, a random reply, search again — the cache is kept throughout
             let plies: usize = arg(args, "plies", 8);
@@ -751,6 +787,47 @@ fn random_profile(rng: &mut Rng, profile: u8) -> Option<Board> {
             }
         }
     };
+    if profile == 4 {
+        // castling available to the side to move, the enemy king close to the files the rook lands on, a few helpers: castling
+        // that gives check or mates (the check comes from the ROOK's new square, not from the piece "that moved")
+        let white = rng.below(2) == 0;
+        let (k, r, ek, back) = if white { ('K', 'R', 'k', 0usize) } else { ('k', 'r', 'K', 7usize) };
+        grid[back * 8 + 4] = Some(k);
+        let both = rng.below(3) == 0;
+        let kingside = rng.below(2) == 0;
+        if both || kingside {
+            grid[back * 8 + 7] = Some(r);
+        }
+        if both || !kingside {
+            grid[back * 8] = Some(r);
+        }
+        // enemy king two to four ranks away on the d / f file or next to it
+        let file = [2usize, 3, 4, 5, 6][rng.below(5) as usize];
+        let dist = 2 + rng.below(3) as usize;
+        let er = if white { dist } else { 7 - dist };
+        if grid[er * 8 + file].is_some() {
+            return None;
+        }
+        grid[er * 8 + file] = Some(ek);
+        let helpers: [char; 6] = if white { ['Q', 'B', 'N', 'P', 'R', 'p'] } else { ['q', 'b', 'n', 'p', 'r', 'P'] };
+        for _ in 0..(1 + rng.below(4)) {
+            place(&mut grid, helpers[rng.below(6) as usize], None);
+        }
+        let rights: String = match (white, both, kingside) {
+            (true, true, _) => "KQ".into(),
+            (true, false, true) => "K".into(),
+            (true, false, false) => "Q".into(),
+            (false, true, _) => "kq".into(),
+            (false, false, true) => "k".into(),
+            (false, false, false) => "q".into(),
+        };
+        let fen = format!("{} {} {} - 0 1", grid_placement(&grid), if white { "w" } else { "b" }, rights);
+        let b = Board::from_fen(&fen);
+        if b.get_piece_count(Kind::King(Color::White)) != 1 || b.get_piece_count(Kind::King(Color::Black)) != 1 || b.is_in_check(b.current_turn.opposite()) {
+            return None;
+        }
+        return Some(b);
+    }
     if profile == 3 {
         // a bare king to move against two or three heavy pieces: usually lost in a move or two, with some moves losing at once
         // and others a move later (mate scores of different lengths meet in the cache)
@@ -820,8 +897,8 @@ fn mate_mode(rng: &mut Rng, count: usize, maxdepth: u8, shard: usize, of: usize,
     let mut per_cat = [0usize; 3];
     while found < count && tries < 2_000_000 {
         tries += 1;
-        // a third from sparse random positions, a third bare king vs heavy pieces, a third from random play out of the seeds
-        let src = rng.below(3);
+        // a quarter each: sparse random positions, bare king vs heavy pieces, castling set-ups next to the enemy king, random play from the seeds
+        let src = rng.below(4);
         let mut b = if src == 0 {
             match random_sparse(rng) {
                 Some(b) => b,
@@ -829,6 +906,11 @@ fn mate_mode(rng: &mut Rng, count: usize, maxdepth: u8, shard: usize, of: usize,
             }
         } else if src == 1 {
             match random_profile(rng, 3) {
+                Some(b) => b,
+                None => continue,
+            }
+        } else if src == 3 {
+            match random_profile(rng, 4) {
                 Some(b) => b,
                 None => continue,
             }
